@@ -711,7 +711,7 @@ where
         );
     }
     let Some((terminal, tag)) = M::Terminal::parse("T") else {
-        panic!("could not find the T terminal")
+        return err("binary mode requires a decision diagram kind with the terminal T");
     };
     let terminal = EdgeDropGuard::new(manager, manager.get_terminal(terminal)?.with_tag_owned(tag));
 
